@@ -103,6 +103,46 @@ def cases(rng, tier):
                 c["expect"] = "err:ProofVerificationError"
             out.append(c)
         out.append({"line": "kzgbatch %d %s %d -" % (deg, ds, tr), "tags": ["batch-empty"], "expect": "err:ProofVerificationError"})
+        # CANCELLING errors in two entries of a larger batch: +d in entry i, -d in entry j (every pair of positions, batches of
+        # 3..5): rejected only because the entries carry DISTINCT powers of the batching challenge
+        if deg == 8 or tier != "quick":
+            for k in ((3, 4) if tier == "quick" else (3, 4, 5)):
+                base_items = []
+                for i in range(k):
+                    z = rng.choice([0, 1, rng.fe(), rng.fe()])
+                    v = rng.choice([1, rng.fe()])
+                    polys = [poly(rng, 2 + rng.below(max(1, keylen - 2))) for _ in range(1 + rng.below(2))]
+                    base_items.append((z, v, polys))
+                same_point = rng.coin(1, 3)
+                if same_point:
+                    base_items = [(base_items[0][0], v, ps) for (_, v, ps) in base_items]
+                dlt = 1 + rng.below(1000)
+                for i in range(k):
+                    for j in range(i + 1, k):
+                        items = []
+                        for t, (z, v, polys) in enumerate(base_items):
+                            ev = [py_eval(p, z) for p in polys]
+                            if t == i: ev[0] = (ev[0] + dlt) % R
+                            if t == j: ev[0] = (ev[0] - dlt) % R
+                            items.append("%s|%s|%s|%s|%s" % (hx(z), hx(v), ";".join(lst(p) for p in polys), lst(ev), hx(z)))
+                        out.append({"line": "kzgbatch %d %s %d %s" % (deg, ds, tr, "/".join(items)),
+                                    "tags": ["batch-size-%d" % k, "cancelling-errors-%d-%d" % (i, j)], "expect": "err:PairingCheckFailure"})
+                items = ["%s|%s|%s|=|%s" % (hx(z), hx(v), ";".join(lst(p) for p in polys), hx(z)) for (z, v, polys) in base_items]
+                out.append({"line": "kzgbatch %d %s %d %s" % (deg, ds, tr, "/".join(items)), "tags": ["batch-size-%d" % k, "all-evaluations-true"],
+                            "expect": "ok"})
+        # the same inside ONE aggregated opening: +d / -d in two of 3..4 claimed evaluations at one point (distinct powers of v)
+        if deg == 8 or tier != "quick":
+            for npoly in (3, 4):
+                z, v = rng.fe(), rng.fe()
+                polys = [poly(rng, 2 + rng.below(max(1, keylen - 2))) for _ in range(npoly)]
+                dlt = 1 + rng.below(1000)
+                for i in range(npoly):
+                    for j in range(i + 1, npoly):
+                        ev = [py_eval(p, z) for p in polys]
+                        ev[i] = (ev[i] + dlt) % R; ev[j] = (ev[j] - dlt) % R
+                        it = "%s|%s|%s|%s|%s" % (hx(z), hx(v), ";".join(lst(p) for p in polys), lst(ev), hx(z))
+                        out.append({"line": "kzgbatch %d %s %d %s" % (deg, ds, tr, it),
+                                    "tags": ["aggregate-%d-polys" % npoly, "cancelling-errors-%d-%d" % (i, j)], "expect": "err:PairingCheckFailure"})
     # zero draw is resampled
     out.append({"line": "kzgsetup 2 %s %s %s" % (draw(rng, "zero"), draw(rng), draw(rng)), "tags": ["setup-not-enough-draws"]})
     out.append({"line": "kzgsetup 0 %s %s %s" % (draw(rng), draw(rng), draw(rng)), "tags": ["setup-degree-0"], "expect": "err:DegreeIsZero"})
@@ -135,7 +175,7 @@ def run(ctx, broken):
     r.run(cs)
     st = r.report()
     st["rule"] = ("SRS degrees 1..16 (64 thorough) from scripted RNG draws; every trim around 0/1/degree; polynomials up to and just "
-                  "beyond the key degree (with trailing zeros); openings: batches of 1..3 points x 1..3 polynomials, all true / one "
+                  "beyond the key degree (with trailing zeros); openings: batches of 3..5 entries with CANCELLING errors (+d / -d) in every pair of positions; batches of 1..3 points x 1..3 polynomials, all true / one "
                   "wrong evaluation / wrong witness / swapped entries / mismatched lengths / empty; aggregate witness. impl output == "
                   "Lean model (setup points, commitments byte-for-byte; batch decision via the trapdoor x); the model also checks "
                   "commit == [p(x)]g (spec=ok); accept/reject vs the property's own expectation (Python).")
